@@ -27,8 +27,10 @@ PEER_PORT, PEER_OBF_PORT = 40000, 40001          # the peer we connect to
 CB_IP = '10.0.0.9'
 CB_PORT, CB_OBF_PORT = 41000, 41001              # the peer that asks us to connect back
 CB_TICKET = 777
+BAD_PORT = 70000                                   # uint32 on the wire, not a TCP port
 
 EPS = 0.001
+_HARNESS_DIR = __import__('os').path.dirname(__import__('os').path.dirname(__import__('os').path.abspath(__file__)))
 TICK = 0.004
 
 
@@ -39,7 +41,8 @@ TICK = 0.004
 class Scenario(dict):
     """mode: fallback|race; given: address passed by the caller; sendfail: the server write of
     ConnectToPeer fails; typ: P|F|D; ports: clear|obf|both (what the peer offers); pref: prefer obfuscated;
-    pvia: clear|obf (listening port the peer pierces); user: peer name; steps: list of stimuli."""
+    pvia: clear|obf (listening port the peer pierces); user: peer name; badport: the port the peer is known
+    under is 70000; steps: list of stimuli."""
 
 
 class Runner:
@@ -72,13 +75,36 @@ class Runner:
         return dict(st=c.state.name, cs=c.connection_state.name, typ=str(c.connection_type),
                     user=c.username if c.username is not None else 'none', inc=bool(c.incoming))
 
+    def _task_factory(self, loop, coro, **kw):
+        """Remembers which task created which: work 'of the request' is found by ancestry, not by task or
+        function names."""
+        t = asyncio.Task(coro, loop=loop, **kw)
+        code = getattr(coro, 'cr_code', None) or getattr(coro, 'gi_code', None)
+        if code is not None and code.co_filename.startswith(_HARNESS_DIR):
+            self.parent[t] = None            # the simulated remote side (scripted peers, server): not the code under test
+            return t
+        try:
+            self.parent[t] = asyncio.current_task(loop)
+        except RuntimeError:
+            self.parent[t] = None
+        return t
+
     def _is_attempt_task(self, t):
-        name = t.get_name()
-        if name.startswith('direct-connect-') or name.startswith('indirect-connect-'):
-            return True
-        coro = t.get_coro()
-        qn = getattr(coro, '__qualname__', '')
-        return qn in ('Network._make_direct_connection', 'Network._make_indirect_connection')
+        """A still pending task that the request task created (directly or through tasks it created) - other
+        than the message reader of a connection that is registered (a returned or handed-over connection keeps
+        its reader)."""
+        if self.req is None or t is self.req:
+            return False
+        if any(getattr(c, '_reader_task', None) is t for c in self.network.peer_connections):
+            return False
+        seen = set()
+        cur = self.parent.get(t)
+        while cur is not None and cur not in seen:
+            if cur is self.req:
+                return True
+            seen.add(cur)
+            cur = self.parent.get(cur)
+        return False
 
     def _snapshot(self):
         nw = self.network
@@ -115,20 +141,64 @@ class Runner:
         rec['link'] = bool(link is not None and link.open)
         return dict(res='conn', rc=rec)
 
-    async def _probe_tx(self, c):
-        """Usable: bytes handed to the returned connection reach the peer."""
+    async def _probe(self, c):
+        """Usable, as the caller and the remote peer see it: one message of the connection's type is sent on
+        the returned connection and must arrive at the peer in the encoding a peer of that type expects
+        (P: peer message, obfuscated iff the path runs over an obfuscated port; D: distributed message, in the
+        clear; F: raw bytes, in the clear), and one such message from the peer must be delivered to us
+        (P, D: MessageReceivedEvent for this connection; F: receive_transfer_ticket)."""
+        import struct
+        M = self.M
         w = getattr(c, '_writer', None)
         link = getattr(w, 'link', None)
         if link is None:
-            return False
+            return False, False
         side = w.side
-        before = link.delivered[side]
+        typ = self.scn['typ']
+        wire_obf = (self._label(link) == 'direct' and link.addr[1][1] == PEER_OBF_PORT) or \
+                   (self._label(link) == 'pierce' and link.addr[1][1] == MY_OBF_PORT)
+        box = self.peer_later.setdefault(link.id, [])
+        if link.id not in self.peer_readers:           # pierce links: nobody reads the peer's side yet
+            self._start_peer_reader(Endpoint(link.readers[1 - side], link.writers[1 - side], link), wire_obf, 'p',
+                                    first=False)
+        # us -> peer
+        if typ == 'P':
+            out_msg = M.PeerUserInfoRequest.Request()
+            expect = out_msg.serialize()
+        elif typ == 'D':
+            out_msg = M.DistributedBranchLevel.Request(5)
+            expect = out_msg.serialize()
+        else:
+            out_msg = struct.pack('<I', 1234)
+            expect = out_msg
+        n0 = len(box)
         try:
-            await c.send_message(b'\x04\x00\x00\x00\x0f\x00\x00\x00')      # PeerUserInfoRequest, no payload
+            await c.send_message(out_msg)
         except Exception:
-            return False
+            pass
         await vloop.settle(self.loop)
-        return link.delivered[side] > before
+        tx = expect in box[n0:]
+        # peer -> us
+        if typ == 'F':
+            task = self.loop.create_task(c.receive_transfer_ticket(), name='h-probe-rx')
+            await vloop.settle(self.loop)
+            link.writers[1 - side].write(struct.pack('<I', 4321))
+            await vloop.settle(self.loop)
+            rx = task.done() and not task.cancelled() and task.exception() is None and task.result() == 4321
+            if not task.done():
+                task.cancel()
+                await vloop.settle(self.loop)
+        else:
+            in_msg = M.PeerUserInfoRequest.Request() if typ == 'P' else M.DistributedBranchLevel.Request(7)
+            data = in_msg.serialize()
+            if typ == 'P' and wire_obf:
+                from aioslsk.protocol import obfuscation
+                data = obfuscation.encode(data)
+            n1 = len(self.received_events)
+            link.writers[1 - side].write(data)
+            await vloop.settle(self.loop)
+            rx = any(conn is c and msg == in_msg for (msg, conn) in self.received_events[n1:])
+        return bool(tx), bool(rx)
 
     def _seen(self):
         """Frames seen so far by the server and by the peers, as sets of kinds."""
@@ -168,17 +238,27 @@ class Runner:
     async def _log(self, ev, noobs=False, **kw):
         rec = self._log_sync(ev, noobs=noobs, **kw)
         if rec.get('res') == 'conn':
-            rec['rc']['tx'] = bool(await self._probe_tx(self.returned))
+            rec['rc']['tx'], rec['rc']['rx'] = await self._probe(self.returned)
             rec['snap'] = self._snapshot()
         return rec
 
     # -- scripted peers -----------------------------------------------------------
-    async def _peer_reader(self, ep: Endpoint, obf: bool, who: str):
-        """Reads what the client sends on a link it opened to a peer port."""
+    async def _peer_reader(self, ep: Endpoint, obf: bool, who: str, first: bool = True):
+        """The remote peer's side of a link: reads the initialisation message we send (links we opened), then
+        whatever follows, decoded the way a peer of the requested connection type does: 'P' frames are
+        obfuscated iff the link runs over an obfuscated port, 'D' frames and 'F' raw data never are."""
         M = self.M
-        first = True
+        typ = self.scn['typ'] if who != 'b' else self.scn.get('cbtyp', 'P')
+        box = self.peer_later.setdefault(ep.link.id, [])
         while True:
-            frame = await ep.read_frame(obfuscated=obf and (first or self.scn['typ'] == 'P'))
+            if not first and typ == 'F':
+                try:
+                    raw = await ep.reader.readexactly(4)
+                except (asyncio.IncompleteReadError, ConnectionError):
+                    return
+                box.append(raw)
+                continue
+            frame = await ep.read_frame(obfuscated=obf and (first or typ == 'P'))
             if frame is None:
                 return
             if first:
@@ -201,12 +281,16 @@ class Runner:
                     else:
                         self.peer_frames.append('unexpected')
             else:
-                self.later_frames += 1
+                box.append(frame)
+
+    def _start_peer_reader(self, ep, obf, who, first=True):
+        self.peer_readers.add(ep.link.id)
+        t = self.loop.create_task(self._peer_reader(ep, obf, who, first), name=f'h-peer-reader-{who}')
+        self._keep.append(t)
 
     def _on_accept(self, obf, who):
         def cb(ep):
-            t = self.loop.create_task(self._peer_reader(ep, obf, who), name=f'h-peer-reader-{who}')
-            self._keep.append(t)
+            self._start_peer_reader(ep, obf, who)
         return cb
 
     # -- main ---------------------------------------------------------------------
@@ -216,12 +300,16 @@ class Runner:
         from aioslsk.protocol import messages as M
         scn = self.scn
         self.loop = loop
+        self.parent: dict = {}
+        loop.set_task_factory(self._task_factory)
         self.M = M
         self.t0 = loop.time()
         self.net = net = SimNet(loop).install()
         self._keep = []
         self.peer_frames: list[str] = []
-        self.later_frames = 0
+        self.peer_later: dict[int, list] = {}      # link id -> frames / raw data the peer read after the init message
+        self.peer_readers: set[int] = set()
+        self.received_events: list = []            # (message, connection) of every MessageReceivedEvent
         self.attempts: list[dict] = []       # open_connection attempts of the code under test
         self.ticket = None
         self.init_ticket = None
@@ -260,6 +348,12 @@ class Runner:
                 if port in (PEER_PORT, PEER_OBF_PORT, CB_PORT, CB_OBF_PORT) or host in (PEER_IP, CB_IP):
                     who = 'b' if (host == CB_IP or port in (CB_PORT, CB_OBF_PORT)) else 'd'
                     fut = loop.create_future()
+                    if not 0 <= port <= 65535:
+                        # what asyncio.open_connection does with a number that is not a TCP port: the connect
+                        # call raises OverflowError (no OSError) one loop iteration later
+                        self.attempts.append(dict(who=who, via='invalid', gate=fut, t=loop.time(), host=host))
+                        loop.call_soon(fut.set_exception, OverflowError('connect(): port must be 0-65535.'))
+                        return ('gate', fut)
                     via = {PEER_PORT: 'clear', PEER_OBF_PORT: 'obf', CB_PORT: 'clear', CB_OBF_PORT: 'obf'}.get(port, 'other')
                     self.attempts.append(dict(who=who, via=via, gate=fut, t=loop.time(), host=host))
                     self.deadlines['conn' if who == 'd' else 'bconn'] = loop.time() + 10
@@ -269,6 +363,9 @@ class Runner:
             net.on_link = self._on_link
 
             self.bus = EventBus()
+            from aioslsk.events import MessageReceivedEvent
+            self._on_msg = lambda ev: self.received_events.append((ev.message, ev.connection))
+            self.bus.register(MessageReceivedEvent, self._on_msg)
             self.network = nw = Network(settings, self.bus)
             await nw.initialize()
             nw.server_connection.start_reader_task()      # what SoulSeekClient.login does after the login reply
@@ -277,7 +374,8 @@ class Runner:
             if scn.get('sendfail'):
                 self._install_sendfail()
             await self._log('init', mode=scn['mode'], typ=scn['typ'], user=scn['user'], given=bool(scn.get('given')),
-                      sendfail=bool(scn.get('sendfail')), ports=scn['ports'], pref=bool(scn['pref']))
+                            sendfail=bool(scn.get('sendfail')), badport=bool(scn.get('badport')), ports=scn['ports'],
+                            pref=bool(scn['pref']))
             for step in scn['steps']:
                 await self._apply(step)
             await self._drain()
@@ -392,6 +490,8 @@ class Runner:
             extra = {}
             if scn.get('given'):
                 port, obf = self._offered_port()
+                if scn.get('badport'):
+                    port, obf = BAD_PORT, False
                 extra = dict(ip=PEER_IP, port=port, obfuscate=obf)
             self.req = asyncio.create_task(nw.create_peer_connection(scn['user'], scn['typ'], **extra),
                                            name='h-request')
@@ -406,6 +506,8 @@ class Runner:
                 self.skipped.append('server connection is gone')
                 return
             if kind == 'ok':
+                if scn.get('badport'):          # the only port the peer is known under is not a TCP port
+                    cp, op = BAD_PORT, 0
                 msg = M.GetPeerAddress.Response(scn['user'], PEER_IP, cp, obfuscated_port_amount=1 if op else 0,
                                                 obfuscated_port=op)
             elif kind == 'noip':
@@ -498,6 +600,9 @@ class Runner:
                 return
             cp = CB_PORT if scn.get('cbports', 'clear') in ('clear', 'both') else 0
             op = CB_OBF_PORT if scn.get('cbports', 'clear') in ('obf', 'both') else 0
+            kw['kind'] = args[0] if args else 'ok'
+            if kw['kind'] == 'badport':
+                cp, op = (BAD_PORT if cp else 0), (BAD_PORT + 1 if op else 0)
             self.session.send(M.ConnectToPeer.Response('cbpeer', scn.get('cbtyp', 'P'), CB_IP, cp, CB_TICKET, False,
                                                        obfuscated_port_amount=1 if op else 0, obfuscated_port=op))
         else:
@@ -588,7 +693,7 @@ def _settler(out):
 
 
 def _init_key(st):
-    return (str(st['mode']), bool(st['given']), bool(st['sendFail']))
+    return (str(st['mode']), bool(st['given']), bool(st['sendFail']), bool(st['badPort']))
 
 
 def all_schedules(cfg, g, out):
@@ -695,6 +800,24 @@ def racy_schedules(full=True):
     return out
 
 
+def usability_schedules():
+    """Every connection type x winning path x clear / obfuscated port (and how that port came to be chosen):
+    the schedules in which a connection is returned, with the concretisation fixed instead of rotated, so that
+    each combination is exercised in both directions in every run."""
+    R = ('Request',)
+    out = []
+    for typ in ('P', 'F', 'D'):
+        for mode in ('fallback', 'race'):
+            for given, ports, pref in ((False, 'clear', False), (False, 'obf', False), (False, 'both', True),
+                                       (False, 'both', False), (True, 'obf', False), (True, 'clear', False)):
+                steps = [R] + ([] if given else [('AddrReply', 'ok')]) + [('ConnOk', 'ok')]
+                out.append(((mode, given, False, False), steps, dict(typ=typ, ports=ports, pref=pref)))
+            for pvia in ('clear', 'obf'):
+                steps = [R, ('AddrReply', 'noip'), ('Pierce',)] if mode == 'fallback' else [R, ('Pierce',)]
+                out.append(((mode, False, False, False), steps, dict(typ=typ, pvia=pvia)))
+    return out
+
+
 # ---------------------------------------------------------------------------
 # concretisation: what the abstract schedule leaves open
 # ---------------------------------------------------------------------------
@@ -705,10 +828,13 @@ CONCRETE = [dict(typ=t, ports=po, pref=pr, pvia=pv, cbports=cb, cbtyp=ct)
             for pv, cb, ct in (('clear', 'clear', 'P'), ('obf', 'obf', 'F'), ('clear', 'both', 'D'))]
 
 
-def make_scenario(init, steps, k):
+def make_scenario(init, steps, k, fixed=None):
     c = CONCRETE[k % len(CONCRETE)]
-    mode, given, sendfail = init
-    return Scenario(mode=mode, given=given, sendfail=sendfail, user=USERS[k % len(USERS)], steps=[tuple(x) for x in steps], **c)
+    mode, given, sendfail = init[:3]
+    badport = bool(init[3]) if len(init) > 3 else False
+    c = dict(c, **(fixed or {}))
+    return Scenario(mode=mode, given=given, sendfail=sendfail, badport=badport, user=USERS[k % len(USERS)],
+                    steps=[tuple(x) for x in steps], **c)
 
 
 # ---------------------------------------------------------------------------
@@ -747,6 +873,14 @@ def _fingerprint(tid, info, trace):
     if info.get('kind') == 'unexplained_event':
         what = ev.get('ev')
         res = ev.get('res')
+        rc = ev.get('rc') or {}
+        if res == 'conn' and rc and not (rc.get('tx') and rc.get('rx')):
+            return (f"C11:returned-connection-not-usable:{mode}:typ={rc.get('typ')}:"
+                    f"{'pierce' if rc.get('inc') else 'direct'}:tx={bool(rc.get('tx'))}:rx={bool(rc.get('rx'))}")
+        if res == 'exc' and ev.get('cls') not in (None, 'PeerConnectionError'):
+            return f"C11:error-class:{mode}:{ev.get('cls')}-escapes-create_peer_connection"
+        if what == 'ctp_request' and ev.get('batt') and 'CC' not in (ev.get('srv') or ()) and 'bpierce' not in (ev.get('peer') or ()):
+            return f"C11:connect-back-not-answered:{ev.get('kind')}"
         if what == 'stuck':
             return f"C11:code-not-where-the-model-is:{mode}:{str(ev.get('what'))[:40]}"
         return f"C11:unexplained:{mode}:{what}:res={res}{':' + str(ev.get('cls')) if ev.get('cls') else ''}"
@@ -784,6 +918,12 @@ def _hint(trace):
                 if hdr.get('sendfail') and how != 'request-cancelled':
                     how = 'server-send-failed'
                 return ('left', hdr.get('mode'), how, '+'.join(left)), i
+    for i, r in enumerate(trace[1:], 1):
+        rc = r.get('rc') or {}
+        if r.get('res') == 'conn' and rc and not (rc.get('tx') and rc.get('rx')):
+            return ('unusable', hdr.get('mode'), rc.get('typ'), bool(rc.get('inc')), bool(rc.get('tx')), bool(rc.get('rx'))), i
+        if r.get('res') == 'exc' and r.get('cls') != 'PeerConnectionError':
+            return ('errclass', hdr.get('mode'), r.get('cls')), i
     return ('other', hdr.get('mode')), None
 
 
@@ -820,6 +960,16 @@ def _diagnose_by_class(v, traces, max_diag=12, fine=False):
         reps = [tid for k, tid in todo if k == key]
         for tid in reps:
             v.rejected[tid] = infos[tid]
+        if key[0] in ('unusable', 'errclass') and reps:
+            # one observable class: what TLC says about its representative labels all of them
+            for tid in tids:
+                fps[tid] = _fingerprint(reps[0], infos[reps[0]], traces[reps[0] - 1])
+                if tid not in infos:
+                    at = where[tid]
+                    v.rejected[tid] = dict(kind=infos[reps[0]].get('kind'), name=infos[reps[0]].get('name'), at=at + 1,
+                                           event=traces[tid - 1][at],
+                                           detail=f'same observable class as trace {reps[0]}, which TLC diagnosed')
+            continue
         if key[0] != 'left':
             for tid in tids:
                 fps[tid] = _fingerprint(tid, infos[tid], traces[tid - 1]) if tid in infos else 'C11:rejected-trace'
@@ -869,6 +1019,10 @@ def _corruptions(traces):
     if tr:
         tr[i]['rc']['cs'] = 'AWAITING_INIT'
         out.append(('returned-uninitialised', tr))
+    tr, i = first(lambda t, i, r: r.get('res') == 'conn')
+    if tr:
+        tr[i]['rc']['rx'] = False
+        out.append(('returned-connection-deaf', tr))
     tr, i = first(lambda t, i, r: r.get('res') == 'exc')
     if tr:
         tr[i]['cls'] = 'ConnectionWriteError'
@@ -959,8 +1113,9 @@ def _models(chk: Check, thorough: bool):
 
 def _execute(chk, items):
     traces, metas = [], []
-    for (init, steps, k, source) in items:
-        scn = make_scenario(init, steps, k)
+    for item in items:
+        init, steps, k, source = item[:4]
+        scn = make_scenario(init, steps, k, fixed=item[4] if len(item) > 4 else None)
         rn = Runner(scn)
         tr = rn.run()
         traces.append(tr)
@@ -998,11 +1153,13 @@ def _tuplify(x):
 def run(chk: Check, args):
     thorough = chk.tier == 'thorough'
     chk.cov['rule'] = ('schedule = scenario (connect mode, address given by the caller or asked from the server, server '
-                       'write of ConnectToPeer fails or not) + a maximal sequence of environment actions of the TLC state '
+                       'write of ConnectToPeer fails or not, the port of the peer is a TCP port or not) + a maximal sequence of environment actions of the TLC state '
                        'graph of PeerConnect (stimuli at quiescence); quick: every such sequence of the one-request model '
                        'and of the connect-back model, one concretisation each; thorough: three concretisations each plus '
                        'an edge cover and random walks of the combined request + connect-back model.  Concretisation = '
-                       'connection type, offered ports, obfuscation preference, pierced port, peer name.  Each schedule is '
+                       'connection type, offered ports, obfuscation preference, pierced port, peer name; plus the fixed '
+                       'family type x winning path x clear / obfuscated port.  Every returned connection is exercised in both '
+                       'directions with one message of its type.  Each schedule is '
                        'executed on the real Network over the simulated network in virtual time; distinct = distinct '
                        '(recorded trace projection, concretisation); non-trivial = a request or a connect-back happened')
     graphs = _models(chk, thorough)
@@ -1024,6 +1181,8 @@ def run(chk: Check, args):
         chk.log(f'{len(both)} schedules (edge cover + random walks) of the combined model ({bs} states, {be} edges)')
         for n, ((init, steps), src) in enumerate(sorted(both.items(), key=repr)):
             items.append((init, steps, n * 11 + 3 + chk.seed, src))
+    for n, (init, steps, fixed) in enumerate(usability_schedules()):
+        items.append((init, steps, n + chk.seed, 'type x path x port family', fixed))
     traces, metas = _execute(chk, items)
     chk.log(f'executed {len(traces)} schedules on the real code')
     chk.cov['exhaustive'] = True     # the quiescent-granularity models are finite and all their stimulus sequences ran
@@ -1094,5 +1253,9 @@ def run(chk: Check, args):
         'fine-grained design model (TLC) but are not replayed on the code',
         'reading of "returns or raises" for a cancelled request: it may leave connections that were completely established '
         'and announced through PeerInitializedEvent (ownership passed to the listeners), nothing else',
+        'what a remote peer expects after the initialisation message: P messages obfuscated iff the link runs over an '
+        'obfuscated port, D messages and F raw data always in the clear (protocol documentation; PeerConnection docstring)',
+        'a port > 65535 makes asyncio.open_connection raise OverflowError (CPython socket.connect); the simulated network '
+        'does the same one loop iteration after the call',
         'the Network is used as SoulSeekClient uses it (initialize(), server reader started), without the other managers',
     ]
